@@ -3,7 +3,7 @@ import json, threading, time
 from concurrent.futures import ThreadPoolExecutor
 from vcheck import *
 from wcommon import *
-import c02_amode, c02_elide, c02_guard
+import c02_amode, c02_elide, c02_guard, c02_enc
 
 
 def run(tier, seed):
@@ -11,13 +11,17 @@ def run(tier, seed):
     ck.trusted += ["tools/go2coq (hasSize); hand models of memOpSetup's check, popMemoryOffset (Engine/Bounds.v), of lowerToAddressMode (Engine/Amode.v) and of the known-safe-bounds cache "
                    "(Engine/Elide.v) — the last two compared with the real functions on every run through overlay wrappers (harness/c02/x_*_export.go)",
                    "the x86 meaning of an addressing mode (base + index*2^shift + sign-extended disp32) and of the three instructions lowerToAddressMode inserts (mov imm, xor-zero, shl imm)",
+                   "Engine/X86Enc.v: the hand transcription of encodeEncMem/encodeEncEnc/rexInfo/legacyPrefixes (compared byte for byte with the real functions on every run through "
+                   "harness/c02/x_enc_export.go) and the decoder of the x86-64 instruction format written from the Intel SDM (prefixes 66/F0/F2/F3, REX, opcode maps xx | 0F xx | 0F 38 xx | 0F 3A xx, "
+                   "ModRM, SIB, disp8/disp32, RIP-relative) — restated independently in Python (checks/c02_enc.py) and, when GNU objdump is installed, cross-read by it on the mov/lea/add/cmp instances",
                    "the overlay's copy of LowerToSSA/lowerBody that steps the real frontend (its SSA output is compared with LowerToSSA's on every function)",
                    "coq/Wasm/Sem.v as the oracle of every access of the end-to-end run; harness/c02, checks/c02*.py",
                    "guard stream: Engine/Access.v (byte-level model of plain/SIMD/atomic/bulk accesses, written from the specification) and its restatement in Python (checks/c02_guard.py) as "
                    "reference; the kernel's page protection (mmap PROT_NONE / mprotect) as the detector of host accesses outside [0,size); the harness's twin construction "
                    "(the consumer of a loaded value, called with the reference value of the addressed bytes on the same engine) instead of a semantics of the consumers; "
                    "wazero's api.Memory Read/Write used to fill and to dump the memories"]
-    ck.assumptions += ["instruction selection/encoding after address-mode lowering, register allocation and native code are exercised end to end, not modelled",
+    ck.assumptions += ["the encoding of memory operands (and of the register-register form) is modelled and proved against the instruction format; which opcode / prefix / REX.W an instruction "
+                       "passes to the encoder (instruction selection), immediates after the operand, register allocation and the native execution are exercised end to end, not modelled",
                        "Engine/Elide.v's execution semantics: the memory never shrinks and moves only at calls and memory.grow; a block's own SSA values change only when the block is entered",
                        "arm64 is out of scope on this machine",
                        "guard stream: a wild access is detected when it reaches an inaccessible page: within 64 KiB below the memory, or anywhere from its current size up to the "
@@ -38,7 +42,7 @@ def run(tier, seed):
             if kind in shown: return
             shown.add(kind); ck.violation(kind, sig, detail, **kw)
     # the two direct streams run beside the end-to-end harness
-    pool = ThreadPoolExecutor(3)
+    pool = ThreadPoolExecutor(4)
     t0 = time.time()
     def stream(mod, name):
         try:
@@ -50,18 +54,20 @@ def run(tier, seed):
     fut_a = pool.submit(stream, c02_amode, "amode")
     fut_e = pool.submit(stream, c02_elide, "elide")
     fut_g = pool.submit(stream, c02_guard, "guard")
+    fut_x = pool.submit(stream, c02_enc, "enc")
     rc, out = sh([binp, "-seed", str(seed), "-n", str(n), "-big", str(big)], timeout=2400)
     cases = [json.loads(l) for l in out.split("\n") if l.startswith("{")]
     na, da, dist_a, samp_a = fut_a.result()
     ne, de, dist_e, samp_e = fut_e.result()
     ng, dg, dist_g, samp_g = fut_g.result()
-    ck.note("streams: amode %d cases, elide %d functions, guard %d calls (%d programs, %d at the last in-bounds position, %d children died), end-to-end %d programs (harness phase %.1fs)"
-            % (na, ne, ng, dist_g.get("programs", 0), dist_g.get("main_access_at_last_in_bounds_position", 0), dist_g.get("children_died", 0), len(cases), time.time() - t0))
+    nx, dx, dist_x, samp_x = fut_x.result()
+    ck.note("streams: amode %d cases, elide %d functions, enc %d operand encodings (%d instruction lists), guard %d calls (%d programs, %d at the last in-bounds position, %d children died), end-to-end %d programs (harness phase %.1fs)"
+            % (na, ne, nx, dist_x.get("sequences", 0), ng, dist_g.get("programs", 0), dist_g.get("main_access_at_last_in_bounds_position", 0), dist_g.get("children_died", 0), len(cases), time.time() - t0))
     if rc != 0 or not cases:
         ck.violation("process-fault", {"kind": "process-fault"}, {"rc": rc, "tail": out[-3000:]})
         return ck.finish()
-    ck.cases = len(cases) * 2 + na + ne + ng
-    dist = {"direct_amode": dist_a, "direct_elide": dist_e, "guard": dist_g, "calls": 0, "outcomes": {}, "memories_above_2GiB": 0, "model_out_of_fuel": 0}
+    ck.cases = len(cases) * 2 + na + ne + ng + nx
+    dist = {"direct_amode": dist_a, "direct_elide": dist_e, "direct_enc": dist_x, "guard": dist_g, "calls": 0, "outcomes": {}, "memories_above_2GiB": 0, "model_out_of_fuel": 0}
     for c in cases:
         if c["pages"] > 32768: dist["memories_above_2GiB"] += 1
         for o in (c["engines"]["compiler"].get("obs") or []):
@@ -69,8 +75,8 @@ def run(tier, seed):
             k = o.get("trap") or "values"
             dist["outcomes"][k] = dist["outcomes"].get(k, 0) + 1
     ck.dist = dist
-    ck.distinct = len(set(c["wasm"] for c in cases)) + da + de + dg
-    ck.samples = [dict(pages=c["pages"], calls=c["calls"][:4], compiler=(c["engines"]["compiler"].get("obs") or [])[:4]) for c in cases[:3]] + samp_a + samp_e + samp_g
+    ck.distinct = len(set(c["wasm"] for c in cases)) + da + de + dg + dx
+    ck.samples = [dict(pages=c["pages"], calls=c["calls"][:4], compiler=(c["engines"]["compiler"].get("obs") or [])[:4]) for c in cases[:3]] + samp_a + samp_e + samp_x + samp_g
     ck.extra["rule"] = ("functions with 2-5 loads/stores of every width (bases: parameter reused, derived, constants incl. >= 2^31; static offsets over the whole 32-bit range) "
                         "placed around calls, memory.grow, if/block/loop boundaries; memories of 1-3 pages and just above 2 GiB / just under 4 GiB; both engines vs W; distinct by module bytes. "
                         "Direct stream A: SSA trees (the frontend's shapes enumerated x all interesting offsets, then random trees over the whole of Amode.v's e64 incl. constants/offsets >= 2^31, "
@@ -78,6 +84,11 @@ def run(tier, seed):
                         "and with value+offset (Python). Direct stream B: generated functions (loops, ifs, br/br_if/br_table, calls, memory.grow, few base values) lowered by the real frontend "
                         "stepped opcode by opcode; the real cache at every block boundary/event and every decision of memOpSetup are compared with Elide.v (in Coq, which also evaluates wf_cfg on "
                         "the real graph) and every access of the emitted SSA is checked by a must-dataflow over the final graph (Python). "
+                        "Direct stream D: (rexInfo, legacy prefix, opcode, reg, amode) tuples — every base x index x shift (rsp as index: the encoder must panic), every base x boundary displacement "
+                        "(0, +-1, 127, 128, -128, -129, 255, 256, 2^31-1, -2^31, ...), rbp-relative, rip-relative, every rexInfo x reg x base, every reg x rm, random tuples — handed to the real "
+                        "encodeEncMem/encodeRegMem/encodeEncEnc/encodeRegReg writing into the real compiler buffer; the bytes are compared with X86Enc.v's encoder and DECODED by its SDM decoder (in Coq), "
+                        "by a Python restatement of the format and by objdump; instruction lists (loads, stores of every size, movdqu, rip-relative movdqu, labels before and after their uses) go "
+                        "through the real machine.Encode and the whole buffer must disassemble into the list, every rip-relative operand addressing its label. "
                         "Guard stream: access programs run in child processes on memories whose first byte after the current size is always inaccessible (mmap allocator, fixed or moving on "
                         "growth): a systematic sweep (every full-width load i32/i64/f32/f64/v128 x every consumer of its type — ALU/compare/shift/rotate on either side, vector shifts, splat, "
                         "replace_lane, conversions, float operators, select, if/br_if/br_table, call arguments, global.set — at the last in-bounds and the first out-of-bounds position) and random "
